@@ -191,3 +191,63 @@ func c07freshValue(p *Prog, v ssa.Value, fn *ssa.Function, depth int) bool {
 	}
 	return false
 }
+
+// c07ClockLossless (added after an independent seeded change was missed): the
+// activity clock hands back the instant it was given.  The sweep compares
+// now - Last with the idle timeout, so a Set that stores a rounding of its
+// argument (Unix seconds, Truncate, Round, ...) makes a session look idle for up
+// to the rounding unit longer than it was and a session with traffic is swept.
+// Structural form: no value that flows from Set's time argument into the stored
+// cell passes through a narrowing method of time.Time.
+func c07ClockLossless(c *Check) {
+	p := c.P
+	const rule = "C07.R10 the activity clock is lossless: AtomicTime.Set stores the instant it is given, never a rounding of it (Unix, UnixMilli, UnixMicro, Truncate, Round, ...), so `now - Last > idleTimeout` is not true early"
+	setFn := p.Fn(pUtils, "(*AtomicTime).Set")
+	if setFn == nil || len(setFn.Blocks) == 0 || len(setFn.Params) < 2 {
+		return // anchors are reported by the main check
+	}
+	c.Saw(fnName(setFn))
+	arg := setFn.Params[1]
+	n := 0
+	allInstrs(setFn, func(in ssa.Instruction) {
+		var vals []ssa.Value
+		switch y := in.(type) {
+		case ssa.CallInstruction:
+			vals = callArgs(y)
+		case *ssa.Store:
+			vals = []ssa.Value{y.Val}
+		default:
+			return
+		}
+		for _, v := range vals {
+			d := deps(v, depOpts{throughCalls: true})
+			if !d[arg] {
+				continue
+			}
+			n++
+			bad := ""
+			for dv := range d {
+				call, ok := dv.(*ssa.Call)
+				if !ok {
+					continue
+				}
+				f := staticCallee(call)
+				if f == nil || f.Pkg == nil || f.Pkg.Pkg.Path() != "time" || f.Signature.Recv() == nil {
+					continue
+				}
+				switch f.Name() {
+				case "UnixNano", "UTC", "Local", "In":
+				default:
+					if !deps(call, depOpts{throughCalls: true})[arg] {
+						continue
+					}
+					if bad == "" || f.Name() < bad {
+						bad = f.Name()
+					}
+				}
+			}
+			c.Req(bad == "", "C07.R10:clock-lossless:"+fnName(setFn), rule, p.InstrPos(in), "the value kept by the activity clock is computed from its argument through time.Time."+bad+": the stored instant is rounded, the sweeper overestimates the idle time and closes a session that still has traffic")
+		}
+	})
+	c.Floor("C07.R10:clock-lossless", n, 1)
+}
